@@ -248,7 +248,7 @@ fn gen_program(t: &mut Tape, st: &mut Stats, max_lines: usize) -> Vec<Line> {
             }
             3 => {
                 let (f, v) = if t.flip() {
-                    ("1".to_string(), t.pick(&["0", "1", "3", "255", "text", "", "-1", "${x}"]).to_string())
+                    ("1".to_string(), t.pick(&["0", "1", "3", "255", "text", "", "-1", "${x}", "00", "000", "-0", "007"]).to_string())
                 } else {
                     ("0".to_string(), "-".to_string())
                 };
@@ -697,7 +697,7 @@ pub fn property() -> Property {
         id: "C03",
         rule: "programs of 1..40 (thorough: ..120) lines over a scripted command whose result (continue/goto label/goto line/exit/error/crash, with or without value, with jump countdowns) is dictated by its arguments, with labels from a small pool (duplicates, undefined targets), forward/backward/out-of-range line jumps, unknown commands, arguments reading variables, an on_error command (registered at the start or not, and registered / removed by the scripted command while the script runs) answering continue/exit/crash/error/goto or writing a variable, and recording the variables it sees when called, text or file mode, one script in five starting with an !include_files of 1..4 empty / comment lines (whose empty instructions precede the script's own, so jump targets shift while source lines do not); compared with an abstract machine transcribed from the statement: full call log (arguments, line index, output variable), on_error call log, final variables, Ok/Err with source line (and source file). Non-trivial: >=2 result kinds executed and >=1 jump or error; distinct by (script, configuration) hash",
         assumptions: &[
-            "instructions with an output variable but no command, and exit values that are integers written with sign/space or outside i32, are not generated",
+            "instructions with an output variable but no command, and exit values that are integers written with a plus sign / spaces or outside i32, are not generated (zero written as 00, 000 or -0 is an integer zero: the run succeeds)",
             "error messages are plain text (messages with expansion syntax belong to C10)",
         ],
         sections: vec![
